@@ -245,8 +245,13 @@ Section Correct.
     match x with PVar v => In v dom | PTree t => t = ref | PStr _ => False end.
   Definition arg_nt (x : parg) : Prop :=
     match x with PVar v => is_nt (vtype v) = true | PTree t => is_nt (lbl t) = true | PStr _ => False end.
+  (* `consecutive` is NOT covered: /repo's consecutive() compares absolute argument paths with leaf
+     paths relative to the common prefix (C04 finding consecutive-relative-paths, class K_cons_rel;
+     the fix was withdrawn because a shipped formalization depends on the behaviour).  Almost every
+     pair of nodes of a real tree shares the prefix (0,) below <start>, so a guard on the path
+     pairs would be empty in practice: the theorem excludes formulas that use `consecutive`. *)
   Definition names2 : list str :=
-    [s_before; s_after; s_inside; s_same_position; s_different_position; s_direct_child; s_consecutive].
+    [s_before; s_after; s_inside; s_same_position; s_different_position; s_direct_child].
 
   Definition spred_wf (dom : list var) (n : str) (args : list parg) : Prop :=
     match args with
@@ -356,13 +361,9 @@ Section Correct.
     exists bb, spred_call ref n [SPath p; SPath q] = Ok bb /\ (bb = true <-> path2 ref n p q).
   Proof.
     intros Hp Hq Hn. unfold names2 in Hn. simpl in Hn.
-    destruct Hn as [<-|[<-|[<-|[<-|[<-|[<-|[<-|[]]]]]]]]; simpl;
-      try (eexists; split; [reflexivity|]; rewrite <- path2b_spec; unfold path2b; simpl;
-           rewrite ?orb_false_r; tauto).
-    destruct (consecutive_correct ref p q Hshape Hp Hq) as [[bb Hb] Hiff].
-    exists bb. split; [assumption|]. rewrite <- path2b_spec. unfold path2b. simpl.
-    rewrite consecb_spec, <- Hiff, Hb.
-    split; [intros ->; reflexivity | intro H; inversion H; reflexivity].
+    destruct Hn as [<-|[<-|[<-|[<-|[<-|[<-|[]]]]]]]; simpl;
+      (eexists; split; [reflexivity|]; rewrite <- path2b_spec; unfold path2b; simpl;
+       rewrite ?orb_false_r; tauto).
   Qed.
 
   Lemma tv_bool_cases (bb : bool) (P : Prop) : (bb = true <-> P) ->
@@ -805,7 +806,7 @@ Definition W1_formula : formula atom := (FForall (MkVar VBound [120]%N [60;99;62
 (* evaluate: TRUE *)
 Definition W2_tree : tree := (Node [60;115;116;97;114;116;62]%N 70%N false [(Node [60;115;116;109;116;62]%N 69%N false [(Node [60;97;115;115;103;110;62]%N 68%N false [(Node [60;118;97;114;62]%N 67%N false [(Node [121]%N 66%N false [])]); (Node [32;58;61;32]%N 65%N false []); (Node [60;114;104;115;62]%N 64%N false [(Node [60;118;97;114;62]%N 63%N false [(Node [120]%N 62%N false [])])])])])]).
 Definition W2_formula : formula atom := (FForall (MkVar VBound [100]%N [60;100;105;103;105;116;62]%N) (InVar (MkVar VConst [115;116;97;114;116]%N [60;115;116;97;114;116;62]%N)) None (FSmt (ABool false))).
-(* evaluate: FALSE *)
+(* evaluate: TRUE since 0230f8f (was FALSE) *)
 Definition E1_tree : tree := (Node [60;115;116;97;114;116;62]%N 88%N false [(Node [60;115;116;109;116;62]%N 87%N false [(Node [60;97;115;115;103;110;62]%N 86%N false [(Node [60;118;97;114;62]%N 85%N false [(Node [120]%N 84%N false [])]); (Node [32;58;61;32]%N 83%N false []); (Node [60;114;104;115;62]%N 82%N false [(Node [60;100;105;103;105;116;62]%N 81%N false [(Node [49]%N 80%N false [])])])]); (Node [32;59;32]%N 79%N false []); (Node [60;115;116;109;116;62]%N 78%N false [(Node [60;97;115;115;103;110;62]%N 77%N false [(Node [60;118;97;114;62]%N 76%N false [(Node [121]%N 75%N false [])]); (Node [32;58;61;32]%N 74%N false []); (Node [60;114;104;115;62]%N 73%N false [(Node [60;118;97;114;62]%N 72%N false [(Node [120]%N 71%N false [])])])])])])]).
 Definition E1_formula : formula atom := (FForall (MkVar VBound [114]%N [60;114;104;115;62]%N) (InTree (Node [60;115;116;97;114;116;62]%N 88%N false [(Node [60;115;116;109;116;62]%N 87%N false [(Node [60;97;115;115;103;110;62]%N 86%N false [(Node [60;118;97;114;62]%N 85%N false [(Node [120]%N 84%N false [])]); (Node [32;58;61;32]%N 83%N false []); (Node [60;114;104;115;62]%N 82%N false [(Node [60;100;105;103;105;116;62]%N 81%N false [(Node [49]%N 80%N false [])])])]); (Node [32;59;32]%N 79%N false []); (Node [60;115;116;109;116;62]%N 78%N false [(Node [60;97;115;115;103;110;62]%N 77%N false [(Node [60;118;97;114;62]%N 76%N false [(Node [121]%N 75%N false [])]); (Node [32;58;61;32]%N 74%N false []); (Node [60;114;104;115;62]%N 73%N false [(Node [60;118;97;114;62]%N 72%N false [(Node [120]%N 71%N false [])])])])])])])) None (FExists (MkVar VBound [100]%N [60;97;115;115;103;110;62]%N) (InTree (Node [60;115;116;97;114;116;62]%N 88%N false [(Node [60;115;116;109;116;62]%N 87%N false [(Node [60;97;115;115;103;110;62]%N 86%N false [(Node [60;118;97;114;62]%N 85%N false [(Node [120]%N 84%N false [])]); (Node [32;58;61;32]%N 83%N false []); (Node [60;114;104;115;62]%N 82%N false [(Node [60;100;105;103;105;116;62]%N 81%N false [(Node [49]%N 80%N false [])])])]); (Node [32;59;32]%N 79%N false []); (Node [60;115;116;109;116;62]%N 78%N false [(Node [60;97;115;115;103;110;62]%N 77%N false [(Node [60;118;97;114;62]%N 76%N false [(Node [121]%N 75%N false [])]); (Node [32;58;61;32]%N 74%N false []); (Node [60;114;104;115;62]%N 73%N false [(Node [60;118;97;114;62]%N 72%N false [(Node [120]%N 71%N false [])])])])])])])) None (FAnd [(FSPred [105;110;115;105;100;101]%N [(PVar (MkVar VBound [114]%N [60;114;104;115;62]%N)); (PVar (MkVar VBound [100]%N [60;97;115;115;103;110;62]%N))]); (FOr [(FSmt (AStr false (SVar (MkVar VBound [114]%N [60;114;104;115;62]%N)) (SLit [49]%N))); (FOr [(FSPred [98;101;102;111;114;101]%N [(PVar (MkVar VBound [100]%N [60;97;115;115;103;110;62]%N)); (PVar (MkVar VBound [114]%N [60;114;104;115;62]%N))]); (FSemPred [99;111;117;110;116]%N [(PVar (MkVar VBound [100]%N [60;97;115;115;103;110;62]%N)); (PStr [60;118;97;114;62]%N); (PStr [50]%N)])])])]))).
 (* evaluate: TRUE *)
@@ -847,19 +848,19 @@ Proof.
   vm_compute in H. discriminate.
 Qed.
 
-(* K_vacuous_forall: evaluate() on `forall <digit> d in start: false` and the tree of "y := x":
-   instantiation drops the quantifier, the verdict is FF, the specification says the formula
-   holds (there is no <digit>). *)
-Theorem evaluate_vacuous_refuted :
+(* Former finding K_vacuous_forall (fixed in /repo by 0230f8f): `forall <digit> d in start: false`
+   on the tree of "y := x".  Instantiation used to drop the quantifier (verdict FF); the repaired
+   code keeps it, and on this witness model and specification agree: there is no <digit>, the
+   formula holds vacuously. *)
+Theorem evaluate_vacuous_agrees :
   shape_ok W2_tree = true /\ is_openT W2_tree = false /\ uniq_ids W2_tree /\ narrow W2_tree /\
-  m_kvac W2_tree W_cst W2_formula = true /\
-  m_evaluate W2_tree W_cst W2_formula = Ok FF /\ m_check W2_tree W_cst W2_formula = Ok false /\
+  m_evaluate W2_tree W_cst W2_formula = Ok TT /\ m_check W2_tree W_cst W2_formula = Ok true /\
   sat atom_denote W2_tree W_cst W2_formula.
 Proof.
   split; [reflexivity|]. split; [reflexivity|].
   split; [apply uniq_idsb_spec; vm_compute; reflexivity|].
   split; [apply narrowb_spec; vm_compute; reflexivity|].
-  split; [vm_compute; reflexivity|]. split; [vm_compute; reflexivity|]. split; [vm_compute; reflexivity|].
+  split; [vm_compute; reflexivity|]. split; [vm_compute; reflexivity|].
   apply (s_sat_spec W2_tree W_cst W2_formula eq_refl eq_refl). vm_compute. reflexivity.
 Qed.
 
@@ -906,4 +907,29 @@ Proof.
   split; [vm_compute; reflexivity|].
   apply (satb_spec atom atom_denote W3_tree atom_dec atom_dec_spec 0 W3_formula eq_refl eq_refl env_empty).
   vm_compute. reflexivity.
+Qed.
+
+
+(* K_cons_rel (C04 finding consecutive-relative-paths, open): a formula using `consecutive` on two
+   nodes that share a non-root prefix.  x, y, z are siblings below <b>; the evaluator says
+   consecutive(x, z) although y lies between them. *)
+Definition W4_tree : tree := cons_witness.
+Definition W4_x : var := MkVar VBound [120]%N [120]%N.
+Definition W4_z : var := MkVar VBound [122]%N [122]%N.
+Definition W4_formula : formula atom :=
+  FExists W4_x (InTree W4_tree) None
+    (FExists W4_z (InTree W4_tree) None (FSPred s_consecutive [PVar W4_x; PVar W4_z])).
+
+Theorem eval_consecutive_refuted :
+  shape_ok W4_tree = true /\ is_openT W4_tree = false /\ uniq_ids W4_tree /\ narrow W4_tree /\
+  K_cons_rel [1;0] [1;2] = true /\
+  m_legacy W4_tree W4_formula = Ok TT /\ ~ models atom_denote W4_tree env_empty W4_formula.
+Proof.
+  split; [reflexivity|]. split; [reflexivity|].
+  split; [apply uniq_idsb_spec; vm_compute; reflexivity|].
+  split; [apply narrowb_spec; vm_compute; reflexivity|].
+  split; [reflexivity|]. split; [vm_compute; reflexivity|].
+  intro H. apply (satb_spec atom atom_denote W4_tree atom_dec atom_dec_spec 0 W4_formula
+                    eq_refl eq_refl env_empty) in H.
+  vm_compute in H. discriminate.
 Qed.
